@@ -293,6 +293,9 @@ func checkModel(m *ref.SpecModel, src string) (rejected bool, err error) {
 	// accepted: invalid patterns are found when the scanner automaton is built
 	var derr error
 	if g := rec.Guard(func() { _, _, derr = sp.DFA() }); g != nil {
+		if rec.QueuePanic(g) {
+			return false, nil // listed dependency finding, identified by its call site
+		}
 		return false, fmt.Errorf("%v\nspecification:\n%s", g, src)
 	}
 	invalid := derr != nil && strings.Contains(derr.Error(), "invalid regular expression")
